@@ -10,6 +10,7 @@ import (
 	_ "verif/props/enet"
 	_ "verif/props/eobj"
 	_ "verif/props/eserial"
+	_ "verif/props/evm"
 )
 
 func main() { kit.Main() }
